@@ -45,3 +45,4 @@ pub mod hrun;
 
 pub mod cli;
 pub mod fz;
+pub mod fzrun;
